@@ -8,6 +8,17 @@ export CARGO_NET_OFFLINE=true
 git checkout -q -- . ; rm -f tests/demo_*.rs
 fresh() { rm -rf target/debug/.fingerprint/ntex-mqtt-*; }
 DEMO=$(ls "$M"/demo*.rs 2>/dev/null | head -1)
+if [ -z "$DEMO" ] && [ -f "$M/demo.diff" ]; then
+  # demonstration is a unit test added by demo.diff; its name is the last word of meta.demo_cmd
+  DEMO="$M/demo.diff"
+  NAME=$(python3 -c "import json,sys,re; c=json.load(open(sys.argv[1]))['demo_cmd']; print(re.findall(r'[A-Za-z0-9_:]+', c)[-1])" "$M/meta.json")
+  git apply "$M/demo.diff" || { echo "$ID: demo.diff does not apply"; exit 1; }
+  fresh; cargo test --offline --lib $NAME >/tmp/confirm_$ID.a 2>&1; A=$?
+  grep -q "1 passed" /tmp/confirm_$ID.a || A=99
+  git apply "$M/patch.diff" || { echo "$ID: patch does not apply"; git checkout -q -- .; exit 1; }
+  fresh; cargo test --offline --lib $NAME >/tmp/confirm_$ID.b 2>&1; B=$?
+  git checkout -q -- . ; git apply "$M/patch.diff"
+else
 [ -z "$DEMO" ] && { echo "$ID: no demo .rs file"; exit 1; }
 NAME=$(basename "$DEMO" .rs)
 cp "$DEMO" tests/$NAME.rs
@@ -15,6 +26,7 @@ fresh; cargo test --offline --test $NAME >/tmp/confirm_$ID.a 2>&1; A=$?
 git apply "$M/patch.diff" || { echo "$ID: patch does not apply"; rm -f tests/$NAME.rs; exit 1; }
 fresh; cargo test --offline --test $NAME >/tmp/confirm_$ID.b 2>&1; B=$?
 rm -f tests/$NAME.rs
+fi
 fresh; cargo test --workspace --no-fail-fast --offline >/tmp/confirm_$ID.c 2>&1; C=$?
 PASSED=$(grep -E "^test result" /tmp/confirm_$ID.c | awk '{p+=$4; f+=$6} END {print p":"f}')
 git checkout -q -- .
